@@ -46,12 +46,18 @@ def flight (acks : Nat → Option Nat) (B : ChainId) (f : Packet → Nat) (l : L
   (l.map (term acks B f)).sum
 
 /-- The conservation equation for the ordered pair (A,B) and token `T` of `A`:
-escrowed on A towards B = in flight A→B + (minted on B for A + bound tokens burnt on B in flight back to A). -/
+escrowed on A towards B = in flight A→B + (minted on B for A + bound tokens burnt on B in flight back to A).
+`bindings.amount` is kept in bound units, 10^scale of them per origin unit, so the origin-unit quantities are
+multiplied by k = 10^scale; a token without binding on B is only ever in flight. -/
 def eqn (cfgB : Cfg) (cA cB : Chain) (A B : ChainId) (T : Token) : Prop :=
-  cA.evm.out T B = flight (cB.acks A) B (fun p => fwdAmt p T) cA.commits +
-    (match cfgB.trace A T with
-     | some V => cB.evm.bindAmt V A + flight (cA.acks B) A (fun p => backAmt p V) cB.commits
-     | none => 0)
+  match cfgB.trace A T with
+  | some V =>
+    10 ^ cfgB.scale V A * cA.evm.out T B =
+      10 ^ cfgB.scale V A * flight (cB.acks A) B (fun p => fwdAmt p T) cA.commits +
+      (cB.evm.bindAmt V A + 10 ^ cfgB.scale V A * flight (cA.acks B) A (fun p => backAmt p V) cB.commits)
+  | none => cA.evm.out T B = flight (cB.acks A) B (fun p => fwdAmt p T) cA.commits
+
+theorem mul_of_add {k a b c : Nat} (h : a + b = c) : k * a + k * b = k * c := by rw [← h, Nat.mul_add]
 
 def Conserved (w : World) : Prop := ∀ A B T, A ≠ B → eqn (w.cfg B) (w.chains A) (w.chains B) A B T
 
@@ -156,6 +162,10 @@ theorem fresh_ack (w : World) (h : WF w) (A B : ChainId) (s : Nat) (hs : (w.chai
   have := h.rcpt A B s (h.acks A B s hn)
   omega
 
+/-- relay fee of packet `p` in token `F` as recorded in the packet contract's `packetFees` -/
+def feeAt (e : Evm) (p : Packet) (F : Token) : Nat :=
+  if (e.fee p.dst p.seq).1 = F then (e.fee p.dst p.seq).2 else 0
+
 /-! ### effect of a send on the sending chain -/
 
 structure SendEff (cfg : Cfg) (me : ChainId) (c c' : Chain) (p : Packet) : Prop where
@@ -168,9 +178,12 @@ structure SendEff (cfg : Cfg) (me : ChainId) (c c' : Chain) (p : Packet) : Prop 
   dst : p.dst ≠ me
   ori : ∀ t, p.transfer = some t → t.ori = cfg.ori t.token p.dst
   out : ∀ T D, c'.evm.out T D = c.evm.out T D + (if D = p.dst then fwdAmt p T else 0)
-  bind : ∀ V D, c'.evm.bindAmt V D + (if D = p.dst then backAmt p V else 0) = c.evm.bindAmt V D
+  bind : ∀ V D, c'.evm.bindAmt V D + (if D = p.dst then 10 ^ cfg.scale V D * backAmt p V else 0) = c.evm.bindAmt V D
   cred : c'.evm.credited = c.evm.credited
   refd : c'.evm.refunded = c.evm.refunded
+  fpd : c'.evm.feePaid = c.evm.feePaid
+  feeKey : ∀ D q, ¬ (D = p.dst ∧ q = p.seq) → c'.evm.fee D q = c.evm.fee D q
+  esc : ∀ F, c.evm.bal F acPacket + feeAt c'.evm p F ≤ c'.evm.bal F acPacket
 
 theorem nextSeq_mono {c c' : Chain} {p : Packet} (hn : c'.nextSeq = upd1 c.nextSeq p.dst (p.seq + 1))
     (hs : p.seq = c.nextSeq p.dst) (D : ChainId) : c.nextSeq D ≤ c'.nextSeq D := by
@@ -228,8 +241,7 @@ theorem conserved_send (w : World) (X : ChainId) (c' : Chain) (p : Packet) (h : 
     intro B T hB
     have h0 := hc X B T (Ne.symm hB)
     unfold eqn at h0 ⊢
-    rw [e.commits, flight_cons, e.out, e.acks, h0]
-    have : term ((w.chains B).acks X) B (fun p => fwdAmt p T) p = (if B = p.dst then fwdAmt p T else 0) := by
+    have ht : term ((w.chains B).acks X) B (fun p => fwdAmt p T) p = (if B = p.dst then fwdAmt p T else 0) := by
       unfold term
       by_cases hd : p.dst = B
       · subst hd
@@ -237,19 +249,25 @@ theorem conserved_send (w : World) (X : ChainId) (c' : Chain) (p : Packet) (h : 
         simp [this]
       · have : ¬ B = p.dst := fun h => hd h.symm
         simp [hd, this]
-    rw [this]; omega
+    have hout := e.out T B
+    cases htr : (w.cfg B).trace X T with
+    | none =>
+      rw [htr] at h0; simp only at h0 ⊢
+      rw [e.commits, flight_cons, ht, hout, h0]; omega
+    | some V =>
+      rw [htr] at h0; simp only at h0 ⊢
+      rw [e.commits, flight_cons, e.acks, ht, hout, Nat.mul_add, Nat.mul_add, h0]; omega
   · -- X as the destination (holder of bound tokens)
     intro A T hA
     have h0 := hc A X T hA
     unfold eqn at h0 ⊢
-    rw [e.acks, h0]
     cases htr : (w.cfg X).trace A T with
-    | none => simp
+    | none => rw [htr] at h0; simp only at h0 ⊢; rw [e.acks]; exact h0
     | some V =>
-      simp only
-      rw [e.commits, flight_cons]
+      rw [htr] at h0; simp only at h0 ⊢
+      rw [e.acks, e.commits, flight_cons, h0]
       have hb := e.bind V A
-      have : term ((w.chains A).acks X) A (fun p => backAmt p V) p = (if A = p.dst then backAmt p V else 0) := by
+      have ht : term ((w.chains A).acks X) A (fun p => backAmt p V) p = (if A = p.dst then backAmt p V else 0) := by
         unfold term
         by_cases hd : p.dst = A
         · subst hd
@@ -257,7 +275,10 @@ theorem conserved_send (w : World) (X : ChainId) (c' : Chain) (p : Packet) (h : 
           simp [this]
         · have : ¬ A = p.dst := fun h => hd h.symm
           simp [hd, this]
-      rw [this]; omega
+      rw [ht, Nat.mul_add]
+      by_cases hd : A = p.dst
+      · simp only [hd, ↓reduceIte] at hb ⊢; omega
+      · simp only [hd, ↓reduceIte, Nat.mul_zero] at hb ⊢; omega
 
 /-! ### effect of a receive on the destination chain -/
 
@@ -267,11 +288,14 @@ structure RecvEff (cfg : Cfg) (c c' : Chain) (p : Packet) (code : Nat) : Prop wh
   receipts : c'.receipts = upd2 c.receipts p.src p.seq true
   acks : c'.acks = upd2 c.acks p.src p.seq (some code)
   out : ∀ T D, c'.evm.out T D + (if D = p.src ∧ code = 0 then relAmt p T else 0) = c.evm.out T D
-  bind : ∀ V D, c'.evm.bindAmt V D = c.evm.bindAmt V D + (if D = p.src ∧ code = 0 then crdAmt cfg p V else 0)
+  bind : ∀ V D, c'.evm.bindAmt V D = c.evm.bindAmt V D + (if D = p.src ∧ code = 0 then 10 ^ cfg.scale V D * crdAmt cfg p V else 0)
   bound : code = 0 → ∀ t, p.transfer = some t → t.ori = none → cfg.trace p.src t.token ≠ none
   cred : c'.evm.credited =
     if code = 0 then upd2 c.evm.credited p.src p.seq (c.evm.credited p.src p.seq + 1) else c.evm.credited
   refd : c'.evm.refunded = c.evm.refunded
+  fpd : c'.evm.feePaid = c.evm.feePaid
+  feeMap : c'.evm.fee = c.evm.fee
+  esc : ∀ F, c.evm.bal F acPacket ≤ c'.evm.bal F acPacket
 
 theorem rel_eq_back (cfgS : Cfg) (hcfg : ∀ A T V, cfgS.trace A T = some V ↔ cfgS.ori V A = some T)
     (p : Packet) (hp : ∀ t, p.transfer = some t → t.ori = cfgS.ori t.token p.dst) (T V : Token)
@@ -439,12 +463,19 @@ theorem conserved_recv (w : World) (X : ChainId) (cR : Chain) (p : Packet) (code
         have hrb := rel_eq_back (w.cfg p.src) (h.cfg p.src) p hori T V (by rw [hd]; exact htr)
         have hfl := flight_ackwrite w h X cR p code hp hd hr e.acks (fun q => backAmt q V)
         rw [hrb] at hout
-        by_cases hc0 : code = 0 <;> simp [hc0] at hout hfl <;> omega
+        by_cases hc0 : code = 0
+        · simp [hc0] at hout hfl
+          have m1 := mul_of_add (k := 10 ^ (w.cfg p.src).scale V X) hout
+          have m2 := mul_of_add (k := 10 ^ (w.cfg p.src).scale V X) hfl
+          omega
+        · simp [hc0] at hout hfl
+          rw [hout, hfl]; exact h0
     · have hacks : cR.acks B = (w.chains X).acks B := by
         rw [e.acks]; funext s; rw [upd2_app]; simp [hBS]
-      rw [hacks]
       simp [hBS] at hout
-      rw [hout]; exact h0
+      cases htr : (w.cfg B).trace X T with
+      | none => rw [htr] at h0; simp only at h0 ⊢; rw [hout]; exact h0
+      | some V => rw [htr] at h0; simp only at h0 ⊢; rw [hacks, hout]; exact h0
   · -- X as the destination side of a pair: it mints bound tokens
     intro A T hA
     have h0 := hc A X T hA
@@ -465,34 +496,41 @@ theorem conserved_recv (w : World) (X : ChainId) (cR : Chain) (p : Packet) (code
         have hb := e.bind V p.src
         have := crd_eq_fwd (w.cfg X) (h.cfg X) p T V htr
         rw [this] at hb
-        by_cases hc0 : code = 0 <;> simp [hc0] at hb hfl <;> omega
+        by_cases hc0 : code = 0
+        · simp [hc0] at hb hfl
+          have m2 := mul_of_add (k := 10 ^ (w.cfg X).scale V p.src) hfl
+          omega
+        · simp [hc0] at hb hfl
+          rw [hb, hfl]; exact h0
     · have hacks : cR.acks A = (w.chains X).acks A := by
         rw [e.acks]; funext s; rw [upd2_app]; simp [hAS]
-      rw [hacks]
       cases htr : (w.cfg X).trace A T with
-      | none => rw [htr] at h0; exact h0
+      | none => rw [htr] at h0; simp only at h0 ⊢; rw [hacks]; exact h0
       | some V =>
         rw [htr] at h0; simp only at h0 ⊢
         have hb := e.bind V A
         simp [hAS] at hb
-        rw [hb]; exact h0
+        rw [hacks, hb]; exact h0
 
 /-! ### effect of an acknowledgement on the source chain -/
 
-structure AckEff (c c' : Chain) (p : Packet) (code : Nat) : Prop where
+structure AckEff (cfg : Cfg) (c c' : Chain) (p : Packet) (code : Nat) : Prop where
   mem : p ∈ c.commits
   commits : c'.commits = c.commits.erase p
   nextSeq : c'.nextSeq = c.nextSeq
   receipts : c'.receipts = c.receipts
   acks : c'.acks = c.acks
   out : ∀ T D, c'.evm.out T D + (if D = p.dst ∧ code ≠ 0 then fwdAmt p T else 0) = c.evm.out T D
-  bind : ∀ V D, c'.evm.bindAmt V D = c.evm.bindAmt V D + (if D = p.dst ∧ code ≠ 0 then backAmt p V else 0)
+  bind : ∀ V D, c'.evm.bindAmt V D = c.evm.bindAmt V D + (if D = p.dst ∧ code ≠ 0 then 10 ^ cfg.scale V D * backAmt p V else 0)
   cred : c'.evm.credited = c.evm.credited
   refd : c'.evm.refunded =
     if code = 0 then c.evm.refunded else upd2 c.evm.refunded p.dst p.seq (c.evm.refunded p.dst p.seq + 1)
+  fpd : c'.evm.feePaid = upd2 c.evm.feePaid p.dst p.seq (c.evm.feePaid p.dst p.seq + 1)
+  feeMap : c'.evm.fee = c.evm.fee
+  esc : ∀ F, c.evm.bal F acPacket ≤ c'.evm.bal F acPacket + feeAt c.evm p F
 
 theorem wf_ack (w : World) (X : ChainId) (c' : Chain) (p : Packet) (code : Nat) (h : WF w)
-    (e : AckEff (w.chains X) c' p code) : WF (w.set X c') := by
+    (e : AckEff (w.cfg X) (w.chains X) c' p code) : WF (w.set X c') := by
   refine ⟨h.cfg, ?_, ?_, ?_, ?_⟩
   · intro A q hq
     rw [set_cfg]
@@ -525,12 +563,11 @@ theorem wf_ack (w : World) (X : ChainId) (c' : Chain) (p : Packet) (code : Nat) 
 
 theorem conserved_ack (w : World) (X : ChainId) (c' : Chain) (p : Packet) (code : Nat) (hc : Conserved w)
     (hack : (w.chains p.dst).acks X p.seq = some code)
-    (e : AckEff (w.chains X) c' p code) : Conserved (w.set X c') := by
+    (e : AckEff (w.cfg X) (w.chains X) c' p code) : Conserved (w.set X c') := by
   apply conserved_set w X c' hc
   · intro B T hB
     have h0 := hc X B T (Ne.symm hB)
     unfold eqn at h0 ⊢
-    rw [e.commits, e.acks]
     have hfl := flight_erase ((w.chains B).acks X) B (fun q => fwdAmt q T) p _ e.mem
     have hout := e.out T B
     have hterm : term ((w.chains B).acks X) B (fun q => fwdAmt q T) p = (if B = p.dst ∧ code ≠ 0 then fwdAmt p T else 0) := by
@@ -540,7 +577,16 @@ theorem conserved_ack (w : World) (X : ChainId) (c' : Chain) (p : Packet) (code 
       · have : ¬ B = p.dst := fun h => hd h.symm
         simp [hd, this]
     rw [hterm] at hfl
-    omega
+    cases htr : (w.cfg B).trace X T with
+    | none =>
+      rw [htr] at h0; simp only at h0 ⊢
+      rw [e.commits]; omega
+    | some V =>
+      rw [htr] at h0; simp only at h0 ⊢
+      rw [e.commits, e.acks]
+      have m1 := mul_of_add (k := 10 ^ (w.cfg B).scale V X) hfl
+      have m2 := mul_of_add (k := 10 ^ (w.cfg B).scale V X) hout
+      omega
   · intro A T hA
     have h0 := hc A X T hA
     unfold eqn at h0 ⊢
@@ -559,7 +605,15 @@ theorem conserved_ack (w : World) (X : ChainId) (c' : Chain) (p : Packet) (code 
         · have : ¬ A = p.dst := fun h => hd h.symm
           simp [hd, this]
       rw [hterm] at hfl
-      omega
+      have m1 := mul_of_add (k := 10 ^ (w.cfg X).scale V A) hfl
+      by_cases hk : A = p.dst ∧ code ≠ 0
+      · obtain ⟨h1, h2⟩ := hk
+        subst h1
+        have h3 : (True ∧ code ≠ 0) := ⟨trivial, h2⟩
+        simp only [true_and, h2, ne_eq, not_false_eq_true, ↓reduceIte] at hb m1 ⊢
+        omega
+      · simp only [hk, ↓reduceIte, Nat.mul_zero, Nat.add_zero] at hb m1 ⊢
+        omega
 
 /-! ### a step that does not touch the bridge bookkeeping of its chain -/
 
@@ -611,6 +665,39 @@ theorem debit_some {e e' : Evm} {t : Token} {a : Acct} {n : Nat} (h : debit e t 
   · cases h
   · exact (Option.some.inj h).symm
 
+/-- two EVM states that agree on everything the bridge bookkeeping looks at (they may differ in allowances,
+agent data, supplies, ack status) -/
+structure BridgeEq (e e' : Evm) : Prop where
+  out : e'.out = e.out
+  bindAmt : e'.bindAmt = e.bindAmt
+  credited : e'.credited = e.credited
+  refunded : e'.refunded = e.refunded
+  feePaid : e'.feePaid = e.feePaid
+  fee : e'.fee = e.fee
+  bal : e'.bal = e.bal
+
+theorem bridgeEq_allow (e : Evm) (al : Token → Acct → Nat) : BridgeEq e { e with allow := al } :=
+  ⟨rfl, rfl, rfl, rfl, rfl, rfl, rfl⟩
+theorem bridgeEq_agentData (e : Evm) (ad : ChainId → Nat → Option (Token × Nat × Acct)) :
+    BridgeEq e { e with agentData := ad } := ⟨rfl, rfl, rfl, rfl, rfl, rfl, rfl⟩
+
+theorem pull_some {e e' : Evm} {t : Token} {a : Acct} {n : Nat} (h : pull e t a n = some e') :
+    ∃ al, e' = { e with allow := al, bal := upd2 e.bal t a (e.bal t a - n) } := by
+  unfold pull spend at h
+  by_cases ht : t = 0
+  · simp only [ht, ↓reduceIte] at h ⊢
+    exact ⟨e.allow, debit_some h⟩
+  · simp only [ht, ↓reduceIte] at h ⊢
+    split at h
+    · cases h
+    · rename_i e1 hs
+      split at hs
+      · cases hs
+      · have := (Option.some.inj hs).symm
+        subst this
+        have := debit_some h
+        exact ⟨_, this⟩
+
 structure SendEvmEff (cfg : Cfg) (me : ChainId) (seq : Nat) (e e' : Evm) (a : SendArgs) (p : Packet) : Prop where
   src : p.src = me
   dstEq : p.dst = a.dst
@@ -618,12 +705,34 @@ structure SendEvmEff (cfg : Cfg) (me : ChainId) (seq : Nat) (e e' : Evm) (a : Se
   seq : p.seq = seq
   ori : ∀ t, p.transfer = some t → t.ori = cfg.ori t.token p.dst
   out : ∀ T D, e'.out T D = e.out T D + (if D = p.dst then fwdAmt p T else 0)
-  bind : ∀ V D, e'.bindAmt V D + (if D = p.dst then backAmt p V else 0) = e.bindAmt V D
+  bind : ∀ V D, e'.bindAmt V D + (if D = p.dst then 10 ^ cfg.scale V D * backAmt p V else 0) = e.bindAmt V D
   cred : e'.credited = e.credited
   refd : e'.refunded = e.refunded
+  fpd : e'.feePaid = e.feePaid
+  feeKey : ∀ D q, ¬ (D = p.dst ∧ q = p.seq) → e'.fee D q = e.fee D q
+  esc : ∀ F, e.bal F acPacket + feeAt e' p F ≤ e'.bal F acPacket
+
+theorem SendEvmEff.congr {cfg : Cfg} {me : ChainId} {seq : Nat} {e0 e e' e'' : Evm} {a : SendArgs} {p : Packet}
+    (h0 : BridgeEq e0 e) (h1 : BridgeEq e' e'') (he : SendEvmEff cfg me seq e e' a p) :
+    SendEvmEff cfg me seq e0 e'' a p := by
+  refine ⟨he.src, he.dstEq, he.dst, he.seq, he.ori, ?_, ?_, ?_, ?_, ?_, ?_, ?_⟩
+  · intro T D; rw [h1.out, ← h0.out]; exact he.out T D
+  · intro V D; rw [h1.bindAmt, ← h0.bindAmt]; exact he.bind V D
+  · rw [h1.credited, ← h0.credited]; exact he.cred
+  · rw [h1.refunded, ← h0.refunded]; exact he.refd
+  · rw [h1.feePaid, ← h0.feePaid]; exact he.fpd
+  · intro D q hk; rw [h1.fee, ← h0.fee]; exact he.feeKey D q hk
+  · intro F
+    have := he.esc F
+    unfold feeAt at this ⊢
+    rw [h1.fee, h1.bal, ← h0.bal]; exact this
 
 theorem sendEvm_eff {cfg : Cfg} {me : ChainId} {seq : Nat} {e e' : Evm} {sender : Acct} {a : SendArgs} {p : Packet}
+    (hs : sender ≠ acPacket)
     (h : sendEvm cfg me seq e sender a = some (e', p)) : SendEvmEff cfg me seq e e' a p := by
+  have hpe : acEndpoint ≠ acPacket := by decide
+  have hpe' : ¬ acPacket = acEndpoint := by decide
+  have hs2 : ¬ acPacket = sender := fun h => hs h.symm
   unfold sendEvm at h
   split at h
   · cases h
@@ -633,7 +742,7 @@ theorem sendEvm_eff {cfg : Cfg} {me : ChainId} {seq : Nat} {e e' : Evm} {sender 
   split at h
   · cases h
   rename_i e1 hfee
-  have h1 := debit_some hfee
+  obtain ⟨al1, h1⟩ := pull_some hfee
   subst h1
   simp only at h
   split at h
@@ -642,10 +751,17 @@ theorem sendEvm_eff {cfg : Cfg} {me : ChainId} {seq : Nat} {e e' : Evm} {sender 
     have hp : p = _ := (Prod.mk.inj h').2.symm
     have he : e' = _ := (Prod.mk.inj h').1.symm
     subst hp; subst he
-    refine ⟨rfl, rfl, hme, rfl, ?_, ?_, ?_, rfl, rfl⟩
+    refine ⟨rfl, rfl, hme, rfl, ?_, ?_, ?_, rfl, rfl, rfl, ?_, ?_⟩
     · intro t ht; cases ht
     · intro T D; simp [fwdAmt, credit]
     · intro V D; simp [backAmt, credit]
+    · intro D q hk; simp [credit, upd2_app, hk]
+    · intro F
+      simp only [feeAt, credit, upd2_app]
+      by_cases hF : a.feeToken = F
+      · subst hF; simp [hs, hs2, hpe, hpe']
+      · have hF' : ¬ F = a.feeToken := fun h => hF h.symm
+        simp [hF, hF', hs, hs2, hpe, hpe']
   · split at h
     · -- bound token going back
       rename_i o ho
@@ -655,13 +771,13 @@ theorem sendEvm_eff {cfg : Cfg} {me : ChainId} {seq : Nat} {e e' : Evm} {sender 
       split at h
       · cases h
       rename_i e2 hdeb
-      have h2 := debit_some hdeb
+      obtain ⟨al2, h2⟩ := pull_some hdeb
       subst h2
       have h' := Option.some.inj h
       have hp : p = _ := (Prod.mk.inj h').2.symm
       have he : e' = _ := (Prod.mk.inj h').1.symm
       subst hp; subst he
-      refine ⟨rfl, rfl, hme, rfl, ?_, ?_, ?_, rfl, rfl⟩
+      refine ⟨rfl, rfl, hme, rfl, ?_, ?_, ?_, rfl, rfl, rfl, ?_, ?_⟩
       · intro t ht
         have := Option.some.inj ht
         subst this
@@ -672,26 +788,34 @@ theorem sendEvm_eff {cfg : Cfg} {me : ChainId} {seq : Nat} {e e' : Evm} {sender 
         by_cases hk : V = a.token ∧ D = a.dst
         · obtain ⟨hV, hD⟩ := hk
           subst hV; subst hD
+          simp only [credit] at hliq
           simp at hliq ⊢
-          simp [credit] at hliq
+          rw [Nat.mul_comm (10 ^ _)]
           omega
         · by_cases hD : D = a.dst
           · have hV : ¬ a.token = V := fun h => hk ⟨h.symm, hD⟩
             have hV' : ¬ V = a.token := fun h => hk ⟨h, hD⟩
             simp [hD, hV, hV']
           · simp [hD]
+      · intro D q hk; simp [credit, upd2_app, hk]
+      · intro F
+        simp only [feeAt, credit, upd2_app]
+        by_cases hF : a.feeToken = F
+        · subst hF; simp [hs, hs2, hpe, hpe']
+        · have hF' : ¬ F = a.feeToken := fun h => hF h.symm
+          simp [hF, hF', hs, hs2, hpe, hpe']
     · -- origin token: escrow
       rename_i ho
       split at h
       · cases h
       rename_i e2 hdeb
-      have h2 := debit_some hdeb
+      obtain ⟨al2, h2⟩ := pull_some hdeb
       subst h2
       have h' := Option.some.inj h
       have hp : p = _ := (Prod.mk.inj h').2.symm
       have he : e' = _ := (Prod.mk.inj h').1.symm
       subst hp; subst he
-      refine ⟨rfl, rfl, hme, rfl, ?_, ?_, ?_, rfl, rfl⟩
+      refine ⟨rfl, rfl, hme, rfl, ?_, ?_, ?_, rfl, rfl, rfl, ?_, ?_⟩
       · intro t ht
         have := Option.some.inj ht
         subst this
@@ -708,22 +832,23 @@ theorem sendEvm_eff {cfg : Cfg} {me : ChainId} {seq : Nat} {e e' : Evm} {sender 
             simp [hD, hT, hT']
           · simp [hD]
       · intro V D; simp [backAmt, credit]
+      · intro D q hk; simp [credit, upd2_app, hk]
+      · intro F
+        simp only [feeAt, credit, upd2_app]
+        by_cases hF : a.feeToken = F
+        · subst hF; simp [hs, hs2, hpe, hpe']
+        · have hF' : ¬ F = a.feeToken := fun h => hF h.symm
+          simp [hF, hF', hs, hs2, hpe, hpe']
 
-theorem sendKeeper_eff {cfg : Cfg} {me : ChainId} {c0 : Chain} {e' e'' : Evm} {a : SendArgs} {p : Packet} {c' : Chain}
-    (he : SendEvmEff cfg me (c0.nextSeq a.dst) c0.evm e' a p)
-    (ho : e''.out = e'.out) (hb : e''.bindAmt = e'.bindAmt)
-    (hcr : e''.credited = e'.credited) (hrf : e''.refunded = e'.refunded)
-    (hk : sendKeeper cfg { c0 with evm := e'' } p = some c') : SendEff cfg me c0 c' p := by
+theorem sendKeeper_eff {cfg : Cfg} {me : ChainId} {c0 : Chain} {e' : Evm} {a : SendArgs} {p : Packet} {c' : Chain} {sq : Nat}
+    (hsq : sq = c0.nextSeq p.dst) (he : SendEvmEff cfg me sq c0.evm e' a p)
+    (hk : sendKeeper cfg { c0 with evm := e' } p = some c') : SendEff cfg me c0 c' p := by
   unfold sendKeeper at hk
   split at hk
   · have := Option.some.inj hk; subst this
-    refine ⟨rfl, rfl, rfl, rfl, ?_, he.src, ?_, he.ori, ?_, ?_, ?_, ?_⟩
-    · rw [he.seq, he.dstEq]
+    refine ⟨rfl, rfl, rfl, rfl, ?_, he.src, ?_, he.ori, he.out, he.bind, he.cred, he.refd, he.fpd, he.feeKey, he.esc⟩
+    · rw [he.seq, hsq]
     · rw [he.dstEq]; exact he.dst
-    · intro T D; show e''.out T D = _; rw [ho]; exact he.out T D
-    · intro V D; show e''.bindAmt V D + _ = _; rw [hb]; exact he.bind V D
-    · show e''.credited = _; rw [hcr]; exact he.cred
-    · show e''.refunded = _; rw [hrf]; exact he.refd
   · cases hk
 
 theorem send_eff {cfg : Cfg} {me : ChainId} {c : Chain} {sender : Acct} {a : SendArgs} {c' : Chain}
@@ -731,22 +856,29 @@ theorem send_eff {cfg : Cfg} {me : ChainId} {c : Chain} {sender : Acct} {a : Sen
   unfold send at h
   split at h
   · cases h
-  rename_i e p hs
-  exact ⟨p, sendKeeper_eff (sendEvm_eff hs) rfl rfl rfl rfl h⟩
+  rename_i hs
+  split at h
+  · cases h
+  rename_i e p hse
+  have hs' : sender ≠ acPacket := fun h => hs (Or.inr h)
+  have he := sendEvm_eff hs' hse
+  exact ⟨p, sendKeeper_eff (by rw [he.dstEq]) he h⟩
 
-theorem recvTransfer_eff {cfg : Cfg} {e e1 : Evm} {p : Packet} {tok : Token}
-    (h : recvTransfer cfg e p = some (e1, tok)) :
+theorem recvTransfer_eff {cfg : Cfg} {e e1 : Evm} {p : Packet} {tok : Token} {k : Nat}
+    (h : recvTransfer cfg e p = some (e1, tok, k)) :
     (∀ T D, e1.out T D + (if D = p.src then relAmt p T else 0) = e.out T D) ∧
-    (∀ V D, e1.bindAmt V D = e.bindAmt V D + (if D = p.src then crdAmt cfg p V else 0)) ∧
+    (∀ V D, e1.bindAmt V D = e.bindAmt V D + (if D = p.src then 10 ^ cfg.scale V D * crdAmt cfg p V else 0)) ∧
     (∀ t, p.transfer = some t → t.ori = none → cfg.trace p.src t.token ≠ none) ∧
-    e1.credited = upd2 e.credited p.src p.seq (e.credited p.src p.seq + 1) ∧ e1.refunded = e.refunded := by
+    e1.credited = upd2 e.credited p.src p.seq (e.credited p.src p.seq + 1) ∧ e1.refunded = e.refunded ∧
+    e1.feePaid = e.feePaid ∧ e1.fee = e.fee ∧ (∀ F, e.bal F acPacket ≤ e1.bal F acPacket) := by
+  have hpe : ¬ acPacket = acEndpoint := by decide
   unfold recvTransfer at h
   split at h
   · -- no transfer data
     rename_i ht
     have he : e1 = _ := (Prod.mk.inj (Option.some.inj h)).1.symm
     subst he
-    refine ⟨?_, ?_, ?_, rfl, rfl⟩
+    refine ⟨?_, ?_, ?_, rfl, rfl, rfl, rfl, fun F => Nat.le_refl _⟩
     · intro T D; simp [relAmt, ht]
     · intro V D; simp [crdAmt, ht]
     · intro t h1; rw [ht] at h1; cases h1
@@ -759,12 +891,12 @@ theorem recvTransfer_eff {cfg : Cfg} {e e1 : Evm} {p : Packet} {tok : Token}
       rename_i v hv
       have he : e1 = _ := (Prod.mk.inj (Option.some.inj h)).1.symm
       subst he
-      refine ⟨?_, ?_, ?_, rfl, rfl⟩
+      refine ⟨?_, ?_, ?_, rfl, rfl, rfl, rfl, ?_⟩
       · intro T D; simp [relAmt, ht, hori, credit]
       · intro V D
         simp only [crdAmt, ht, hori, credit, upd2_app]
         by_cases hk : V = v ∧ D = p.src
-        · obtain ⟨h1, h2⟩ := hk; subst h1; subst h2; simp [hv]
+        · obtain ⟨h1, h2⟩ := hk; subst h1; subst h2; simp [hv, Nat.mul_comm]
         · by_cases hD : D = p.src
           · have h1 : ¬ V = v := fun h => hk ⟨h, hD⟩
             have h2 : ¬ v = V := fun h => hk ⟨h.symm, hD⟩
@@ -774,6 +906,11 @@ theorem recvTransfer_eff {cfg : Cfg} {e e1 : Evm} {p : Packet} {tok : Token}
         rw [ht] at h1
         have := Option.some.inj h1; subst this
         rw [hv]; exact Option.some_ne_none v
+      · intro F
+        simp only [credit, upd2_app]
+        split
+        · rename_i hc; rw [hc.1, hc.2]; omega
+        · exact Nat.le_refl _
     · -- back at the origin: release
       rename_i o hori
       split at h
@@ -786,7 +923,7 @@ theorem recvTransfer_eff {cfg : Cfg} {e e1 : Evm} {p : Packet} {tok : Token}
       subst h2
       have he : e1 = _ := (Prod.mk.inj (Option.some.inj h)).1.symm
       subst he
-      refine ⟨?_, ?_, ?_, rfl, rfl⟩
+      refine ⟨?_, ?_, ?_, rfl, rfl, rfl, rfl, ?_⟩
       · intro T D
         simp only [relAmt, ht, hori, credit, upd2_app]
         by_cases hk : T = o ∧ D = p.src
@@ -803,6 +940,11 @@ theorem recvTransfer_eff {cfg : Cfg} {e e1 : Evm} {p : Packet} {tok : Token}
         rw [ht] at h1
         have := Option.some.inj h1; subst this
         rw [hori] at h2; cases h2
+      · intro F
+        simp only [credit, upd2_app]
+        split
+        · rename_i hc; obtain ⟨h1, h2⟩ := hc; subst h1; rw [← h2]; simp [hpe]
+        · simp [hpe]
 
 theorem onRecv_err {cfg : Cfg} {me : ChainId} {c c2 : Chain} {p : Packet} {code : Nat}
     (h : onRecv cfg me c p = .errorResult code c2) : code ≠ 0 := by
@@ -826,17 +968,15 @@ theorem onRecv_err {cfg : Cfg} {me : ChainId} {c c2 : Chain} {p : Packet} {code 
 
 theorem onRecv_ok {cfg : Cfg} {me : ChainId} {c c2 : Chain} {p : Packet}
     (h : onRecv cfg me c p = .ok c2) :
-    ∃ e tok, recvTransfer cfg c.evm p = some (e, tok) ∧
+    ∃ e tok k, recvTransfer cfg c.evm p = some (e, tok, k) ∧
       (c2 = { c with evm := e } ∨
-       ∃ (a : SendArgs) (e2 e3 : Evm) (p2 : Packet),
-         sendEvm cfg me (c.nextSeq a.dst) e acAgent a = some (e2, p2) ∧ e3.out = e2.out ∧ e3.bindAmt = e2.bindAmt ∧
-         e3.credited = e2.credited ∧ e3.refunded = e2.refunded ∧
-         sendKeeper cfg { c with evm := e3 } p2 = some c2) := by
+       ∃ (a : SendArgs) (e3 : Evm) (p2 : Packet) (sq : Nat), sq = c.nextSeq p2.dst ∧
+         SendEvmEff cfg me sq e e3 a p2 ∧ sendKeeper cfg { c with evm := e3 } p2 = some c2) := by
   unfold onRecv at h
   split at h
   · cases h
-  · rename_i e tok hrt
-    refine ⟨e, tok, hrt, ?_⟩
+  · rename_i e tok k hrt
+    refine ⟨e, tok, k, hrt, ?_⟩
     simp only at h
     split at h
     · injection h with h1; exact Or.inl h1.symm
@@ -856,13 +996,15 @@ theorem onRecv_ok {cfg : Cfg} {me : ChainId} {c c2 : Chain} {p : Packet}
             · rename_i c3 hk
               injection h with h1
               subst h1
-              refine Or.inr ⟨_, e2, _, p2, hs, ?_, ?_, ?_, ?_, hk⟩ <;> rfl
+              have he := sendEvm_eff (by decide : acAgent ≠ acPacket) hs
+              exact Or.inr ⟨_, _, p2, _, by rw [he.dstEq], SendEvmEff.congr (bridgeEq_allow e _) (bridgeEq_agentData e2 _) he, hk⟩
 
-
-theorem refund_eff {e e' : Evm} {p : Packet} (h : refund e p = some e') :
+theorem refund_eff {cfg : Cfg} {e e' : Evm} {p : Packet} (h : refund cfg e p = some e') :
     (∀ T D, e'.out T D + (if D = p.dst then fwdAmt p T else 0) = e.out T D) ∧
-    (∀ V D, e'.bindAmt V D = e.bindAmt V D + (if D = p.dst then backAmt p V else 0)) ∧
-    e'.credited = e.credited ∧ e'.refunded = upd2 e.refunded p.dst p.seq (e.refunded p.dst p.seq + 1) := by
+    (∀ V D, e'.bindAmt V D = e.bindAmt V D + (if D = p.dst then 10 ^ cfg.scale V D * backAmt p V else 0)) ∧
+    e'.credited = e.credited ∧ e'.refunded = upd2 e.refunded p.dst p.seq (e.refunded p.dst p.seq + 1) ∧
+    e'.feePaid = e.feePaid ∧ e'.fee = e.fee ∧ (∀ F, e.bal F acPacket ≤ e'.bal F acPacket) := by
+  have hpe : ¬ acPacket = acEndpoint := by decide
   unfold refund at h
   split at h
   · cases h
@@ -871,17 +1013,22 @@ theorem refund_eff {e e' : Evm} {p : Packet} (h : refund e p = some e') :
   · rename_i o hori
     have he := (Option.some.inj h).symm
     subst he
-    refine ⟨?_, ?_, rfl, rfl⟩
+    refine ⟨?_, ?_, rfl, rfl, rfl, rfl, ?_⟩
     · intro T D; simp [fwdAmt, ht, hori, credit]
     · intro V D
       simp only [backAmt, ht, hori, credit, upd2_app]
       by_cases hk : V = t.token ∧ D = p.dst
-      · obtain ⟨h1, h2⟩ := hk; subst h1; subst h2; simp
+      · obtain ⟨h1, h2⟩ := hk; subst h1; subst h2; simp [Nat.mul_comm]
       · by_cases hD : D = p.dst
         · have h1 : ¬ V = t.token := fun h => hk ⟨h, hD⟩
           have h2 : ¬ t.token = V := fun h => hk ⟨h.symm, hD⟩
           simp [hD, h1, h2]
         · simp [hD]
+    · intro F
+      simp only [credit, upd2_app]
+      split
+      · rename_i hc; rw [hc.1, hc.2]; omega
+      · exact Nat.le_refl _
   · rename_i hori
     split at h
     · cases h
@@ -893,7 +1040,7 @@ theorem refund_eff {e e' : Evm} {p : Packet} (h : refund e p = some e') :
     subst h2
     have he := (Option.some.inj h).symm
     subst he
-    refine ⟨?_, ?_, rfl, rfl⟩
+    refine ⟨?_, ?_, rfl, rfl, rfl, rfl, ?_⟩
     · intro T D
       simp only [fwdAmt, ht, hori, credit, upd2_app]
       by_cases hk : T = t.token ∧ D = p.dst
@@ -906,9 +1053,16 @@ theorem refund_eff {e e' : Evm} {p : Packet} (h : refund e p = some e') :
           simp [hD, h1, h2]
         · simp [hD]
     · intro V D; simp [backAmt, ht, hori, credit]
+    · intro F
+      simp only [credit, upd2_app]
+      split
+      · rename_i hc; obtain ⟨h1, h2⟩ := hc; subst h1; rw [← h2]; simp [hpe]
+      · simp [hpe]
 
 theorem agentCallback_eff {e e' : Evm} {p : Packet} (h : agentCallback e p = some e') :
-    e'.out = e.out ∧ e'.bindAmt = e.bindAmt ∧ e'.credited = e.credited ∧ e'.refunded = e.refunded := by
+    e'.out = e.out ∧ e'.bindAmt = e.bindAmt ∧ e'.credited = e.credited ∧ e'.refunded = e.refunded ∧
+    e'.feePaid = e.feePaid ∧ e'.fee = e.fee ∧ (∀ F, e.bal F acPacket ≤ e'.bal F acPacket) := by
+  have hpa : ¬ acPacket = acAgent := by decide
   unfold agentCallback at h
   split at h
   · cases h
@@ -919,10 +1073,33 @@ theorem agentCallback_eff {e e' : Evm} {p : Packet} (h : agentCallback e p = som
   subst h2
   have he := (Option.some.inj h).symm
   subst he
-  exact ⟨rfl, rfl, rfl, rfl⟩
+  refine ⟨rfl, rfl, rfl, rfl, rfl, rfl, ?_⟩
+  intro F
+  simp only [credit, upd2_app]
+  split
+  · rename_i hc; obtain ⟨h1, h2⟩ := hc; subst h1; rw [← h2]; simp [hpa]
+  · simp [hpa]
+
+theorem debit_le {e e' : Evm} {t : Token} {a : Acct} {n : Nat} (h : debit e t a n = some e') : n ≤ e.bal t a := by
+  unfold debit at h
+  split at h
+  · cases h
+  · omega
+
+/-- paying the relay fee out of the packet contract's escrow lowers its balance by exactly the fee -/
+theorem feePay_bal (bal : Token → Acct → Nat) (ft : Token) (fa : Nat) (hle : fa ≤ bal ft acPacket) (F : Token) :
+    bal F acPacket ≤
+      upd2 (upd2 bal ft acPacket (bal ft acPacket - fa)) ft acRelayer
+        (upd2 bal ft acPacket (bal ft acPacket - fa) ft acRelayer + fa) F acPacket + (if ft = F then fa else 0) := by
+  have hpr : ¬ acPacket = acRelayer := by decide
+  simp only [upd2_app, hpr, and_false, ↓reduceIte, and_true]
+  by_cases hF : ft = F
+  · subst hF; simp; omega
+  · have hF' : ¬ F = ft := fun h => hF h.symm
+    simp [hF, hF']
 
 theorem ack_eff {cfg : Cfg} {me : ChainId} {c c' : Chain} {p : Packet} {code : Nat}
-    (h : ackHandler cfg me c p code = some c') : p.src = me ∧ AckEff c c' p code := by
+    (h : ackHandler cfg me c p code = some c') : p.src = me ∧ AckEff cfg c c' p code := by
   unfold ackHandler at h
   split at h
   · cases h
@@ -936,8 +1113,20 @@ theorem ack_eff {cfg : Cfg} {me : ChainId} {c c' : Chain} {p : Packet} {code : N
   split at h
   · cases h
   rename_i e1 hdeb
+  have hle := debit_le hdeb
   have h1 := debit_some hdeb
   subst h1
+  have hesc1 := feePay_bal c.evm.bal (c.evm.fee p.dst p.seq).1 (c.evm.fee p.dst p.seq).2 hle
+  split at h
+  · -- OnAcknowledgePacket reverts and is tolerated: error acknowledgement of a packet without transfer data
+    rename_i htol
+    have hc' := (Option.some.inj h).symm
+    subst hc'
+    refine ⟨Decidable.of_not_not hsrc, ⟨Decidable.of_not_not hmem, rfl, rfl, rfl, rfl, ?_, ?_, rfl, ?_, rfl, rfl, ?_⟩⟩
+    · intro T D; simp [credit, fwdAmt, htol.2]
+    · intro V D; simp [credit, backAmt, htol.2]
+    · simp [htol.1]; rfl
+    · intro F; exact hesc1 F
   split at h
   · cases h
   rename_i e2 hr
@@ -946,12 +1135,12 @@ theorem ack_eff {cfg : Cfg} {me : ChainId} {c c' : Chain} {p : Packet} {code : N
   rename_i e3 hr2
   have hc' := (Option.some.inj h).symm
   subst hc'
-  refine ⟨Decidable.of_not_not hsrc, ⟨Decidable.of_not_not hmem, rfl, rfl, rfl, rfl, ?_, ?_, ?_, ?_⟩⟩
-  all_goals
-    have h32 : e3.out = e2.out ∧ e3.bindAmt = e2.bindAmt ∧ e3.credited = e2.credited ∧ e3.refunded = e2.refunded := by
-      split at hr2
-      · exact agentCallback_eff hr2
-      · have := (Option.some.inj hr2).symm; subst this; exact ⟨rfl, rfl, rfl, rfl⟩
+  have h32 : e3.out = e2.out ∧ e3.bindAmt = e2.bindAmt ∧ e3.credited = e2.credited ∧ e3.refunded = e2.refunded ∧
+      e3.feePaid = e2.feePaid ∧ e3.fee = e2.fee ∧ (∀ F, e2.bal F acPacket ≤ e3.bal F acPacket) := by
+    split at hr2
+    · exact agentCallback_eff hr2
+    · have := (Option.some.inj hr2).symm; subst this; exact ⟨rfl, rfl, rfl, rfl, rfl, rfl, fun F => Nat.le_refl _⟩
+  refine ⟨Decidable.of_not_not hsrc, ⟨Decidable.of_not_not hmem, rfl, rfl, rfl, rfl, ?_, ?_, ?_, ?_, ?_, ?_, ?_⟩⟩
   · intro T D
     show e3.out T D + _ = _
     rw [h32.1]
@@ -983,14 +1172,40 @@ theorem ack_eff {cfg : Cfg} {me : ChainId} {c c' : Chain} {p : Packet} {code : N
     · simp only [hc0, ↓reduceIte] at hr
       exact (refund_eff hr).2.2.1
   · show e3.refunded = _
-    rw [h32.2.2.2]
+    rw [h32.2.2.2.1]
     by_cases hc0 : code = 0
     · simp only [hc0, ↓reduceIte] at hr
       have := (Option.some.inj hr).symm; subst this
       simp [hc0]; rfl
     · simp only [hc0, ↓reduceIte] at hr
-      rw [(refund_eff hr).2.2.2]
+      rw [(refund_eff hr).2.2.2.1]
       simp [hc0]; rfl
+  · show e3.feePaid = _
+    rw [h32.2.2.2.2.1]
+    by_cases hc0 : code = 0
+    · simp only [hc0, ↓reduceIte] at hr
+      have := (Option.some.inj hr).symm; subst this
+      rfl
+    · simp only [hc0, ↓reduceIte] at hr
+      rw [(refund_eff hr).2.2.2.2.1]; rfl
+  · show e3.fee = _
+    rw [h32.2.2.2.2.2.1]
+    by_cases hc0 : code = 0
+    · simp only [hc0, ↓reduceIte] at hr
+      have := (Option.some.inj hr).symm; subst this
+      rfl
+    · simp only [hc0, ↓reduceIte] at hr
+      rw [(refund_eff hr).2.2.2.2.2.1]; rfl
+  · intro F
+    have a1 := hesc1 F
+    have a3 := h32.2.2.2.2.2.2 F
+    by_cases hc0 : code = 0
+    · simp only [hc0, ↓reduceIte] at hr
+      have := (Option.some.inj hr).symm; subst this
+      exact Nat.le_trans a1 (Nat.add_le_add_right a3 _)
+    · simp only [hc0, ↓reduceIte] at hr
+      have a2 := (refund_eff hr).2.2.2.2.2.2 F
+      exact Nat.le_trans a1 (Nat.add_le_add_right (Nat.le_trans a2 a3) _)
 
 theorem recv_eff {cfg : Cfg} {me : ChainId} {c c' : Chain} {p : Packet}
     (h : recvHandler true cfg me c p = some c') :
@@ -1017,7 +1232,7 @@ theorem recv_eff {cfg : Cfg} {me : ChainId} {c c' : Chain} {p : Packet}
                       receipts := upd2 c.receipts p.src p.seq true,
                       acks := upd2 c.acks p.src p.seq (some code) } p code := by
     intro code hc
-    refine ⟨rfl, rfl, rfl, rfl, ?_, ?_, ?_, ?_, rfl⟩
+    refine ⟨rfl, rfl, rfl, rfl, ?_, ?_, ?_, ?_, rfl, rfl, rfl, fun F => Nat.le_refl _⟩
     · intro T D; simp [hc]
     · intro V D; simp [hc]
     · intro h0; exact absurd h0 hc
@@ -1026,20 +1241,20 @@ theorem recv_eff {cfg : Cfg} {me : ChainId} {c c' : Chain} {p : Packet}
   · rename_i cctx' hcb
     have hc' := (Option.some.inj h).symm
     subst hc'
-    obtain ⟨e, tok, hrt, hcase⟩ := onRecv_ok hcb
-    obtain ⟨ho, hb, hbound, hcr, hrf⟩ := recvTransfer_eff hrt
+    obtain ⟨e, tok, k, hrt, hcase⟩ := onRecv_ok hcb
+    obtain ⟨ho, hb, hbound, hcr, hrf, hfp, hfee, hbal⟩ := recvTransfer_eff hrt
     refine ⟨0, { evm := e, nextSeq := c.nextSeq, commits := c.commits, receipts := upd2 c.receipts p.src p.seq true,
-                 acks := upd2 c.acks p.src p.seq (some 0) }, ⟨rfl, rfl, rfl, rfl, ?_, ?_, fun _ => hbound, ?_, hrf⟩, ?_⟩
+                 acks := upd2 c.acks p.src p.seq (some 0) }, ⟨rfl, rfl, rfl, rfl, ?_, ?_, fun _ => hbound, ?_, hrf, hfp, hfee, hbal⟩, ?_⟩
     · intro T D; have := ho T D; simpa using this
     · intro V D; have := hb V D; simpa using this
     · simpa using hcr
-    · rcases hcase with h1 | ⟨a, e2, e3, p2, hs, ho3, hb3, hc3, hr3, hk⟩
+    · rcases hcase with h1 | ⟨a, e3, p2, sq, hsq, he, hk⟩
       · left; subst h1; rfl
       · right
-        have he := sendEvm_eff hs
         have key := sendKeeper_eff (c0 := { evm := e, nextSeq := c.nextSeq, commits := c.commits,
-                                            receipts := upd2 c.receipts p.src p.seq true, acks := c.acks }) he ho3 hb3 hc3 hr3 hk
-        refine ⟨p2, ⟨key.commits, ?_, key.receipts, key.nextSeq, key.seq, key.src, key.dst, key.ori, key.out, key.bind, key.cred, key.refd⟩⟩
+                                            receipts := upd2 c.receipts p.src p.seq true, acks := c.acks }) hsq he hk
+        refine ⟨p2, ⟨key.commits, ?_, key.receipts, key.nextSeq, key.seq, key.src, key.dst, key.ori, key.out, key.bind,
+          key.cred, key.refd, key.fpd, key.feeKey, key.esc⟩⟩
         show upd2 cctx'.acks p.src p.seq (some 0) = _
         rw [key.acks]
   · have hc' := (Option.some.inj h).symm
@@ -1113,6 +1328,19 @@ theorem inv_step (w : World) (s : Step) (h : Inv w) : Inv (step true w s) := by
   | mint i t who n =>
     simp only [step]
     exact inv_frame w i _ h.1 h.2 rfl rfl rfl rfl rfl rfl
+  | approve i t who n =>
+    simp only [step]
+    exact inv_frame w i _ h.1 h.2 rfl rfl rfl rfl rfl rfl
+  | transfer i t src dst n =>
+    simp only [step]
+    split
+    · exact h
+    · split
+      · exact h
+      · rename_i e hd
+        have := debit_some hd
+        subst this
+        exact inv_frame w i _ h.1 h.2 rfl rfl rfl rfl rfl rfl
 
 /-- **Conservation, every history.** From any world satisfying the invariant, after any list of steps
 (sends, packet relays, acknowledgement relays on any chains in any interleaving, with any call data),
@@ -1128,17 +1356,24 @@ theorem conserved_run (w : World) (steps : List Step) (h : Inv w) : Conserved (r
 
 /-! ### a concrete world: hypotheses are satisfiable, and the unrepaired handler violates the property -/
 
-def cfgA : Cfg := { clients := fun j => j == 1, trace := fun _ _ => none, ori := fun _ _ => none }
+def cfgA : Cfg := { clients := fun j => j == 1, trace := fun _ _ => none, ori := fun _ _ => none, scale := fun _ _ => 0 }
 /-- chain 1 has bound its token 2 to (chain 0, token 1) -/
 def cfgB : Cfg :=
   { clients := fun j => j == 0,
     trace := fun oc ot => if oc = 0 ∧ ot = 1 then some 2 else none,
-    ori := fun v oc => if v = 2 ∧ oc = 0 then some 1 else none }
+    ori := fun v oc => if v = 2 ∧ oc = 0 then some 1 else none,
+    scale := fun _ _ => 0 }
+
+/-- chain 0: the user (account 0) holds 10000 of token 1 and has approved the endpoint for 100000 -/
+def evm0 : Evm :=
+  { Evm.empty with
+    bal := fun t a => if t = 1 ∧ a = 0 then 10000 else 0
+    allow := fun t a => if t = 1 ∧ a = 0 then 100000 else 0 }
 
 def w0 : World :=
   { cfg := fun i => if i = 0 then cfgA else cfgB,
     chains := fun i =>
-      if i = 0 then { Chain.empty with evm := { Evm.empty with bal := fun t a => if t = 1 ∧ a = 0 then 10000 else 0 } }
+      if i = 0 then { Chain.empty with evm := evm0 }
       else Chain.empty }
 
 theorem inv_w0 : Inv w0 := by
@@ -1171,8 +1406,11 @@ theorem inv_w0 : Inv w0 := by
     by_cases hB : B = 0 <;> simp [hB, Chain.empty] at hr
   · intro A B T _
     unfold eqn w0
-    by_cases hA : A = 0 <;> by_cases hB : B = 0 <;> simp [hA, hB, Chain.empty, Evm.empty, flight] <;>
-      (split <;> rfl)
+    by_cases hB : B = 0
+    · simp [hB, cfgA]
+      by_cases hA : A = 0 <;> simp [hA, Chain.empty, Evm.empty, evm0, flight]
+    · simp only [hB, ↓reduceIte, cfgB]
+      by_cases hA : A = 0 <;> (split <;> simp [hA, Chain.empty, Evm.empty, evm0, flight])
 
 def sendArgs (call : Call) (receiver : Acct) : SendArgs :=
   { dst := 1, token := 1, amount := 2000, receiver := receiver, call := call, feeToken := 1, feeAmount := 0, callback := false }
@@ -1195,6 +1433,9 @@ theorem unrepaired_not_conserved_F13 : ¬ Conserved (run false w0 f13Steps) := b
   intro h
   have h1 := h 0 1 1 (by decide)
   unfold eqn at h1
+  have htr : ((run false w0 f13Steps).cfg 1).trace 0 1 = some 2 := by decide
+  rw [htr] at h1
+  simp only at h1
   revert h1
   decide
 
@@ -1209,6 +1450,9 @@ theorem unrepaired_not_conserved_F1 : ¬ Conserved (run false w0 f1Steps) := by
   intro h
   have h1 := h 0 1 1 (by decide)
   unfold eqn at h1
+  have htr : ((run false w0 f1Steps).cfg 1).trace 0 1 = some 2 := by decide
+  rw [htr] at h1
+  simp only at h1
   revert h1
   decide
 
@@ -1223,6 +1467,9 @@ theorem unrepaired_not_conserved_F1_agent : ¬ Conserved (run false w0 f1AgentSt
   intro h
   have h1 := h 0 1 1 (by decide)
   unfold eqn at h1
+  have htr : ((run false w0 f1AgentSteps).cfg 1).trace 0 1 = some 2 := by decide
+  rw [htr] at h1
+  simp only at h1
   revert h1
   decide
 
@@ -1439,7 +1686,7 @@ theorem erase_key (p r : Packet) : ∀ l : List Packet, KeysDistinct l → p ∈
 
 theorem ginv_ack (w : World) (X : ChainId) (c' : Chain) (p : Packet) (code : Nat) (h : WF w) (g : GInv w)
     (hack : (w.chains p.dst).acks X p.seq = some code)
-    (e : AckEff (w.chains X) c' p code) : GInv (w.set X c') := by
+    (e : AckEff (w.cfg X) (w.chains X) c' p code) : GInv (w.set X c') := by
   have hcr : ∀ Y, ((w.set X c').chains Y).evm.credited = (w.chains Y).evm.credited :=
     fun Y => set_proj w X c' (fun c => c.evm.credited) e.cred Y
   have hak : ∀ Y, ((w.set X c').chains Y).acks = (w.chains Y).acks :=
@@ -1608,6 +1855,19 @@ theorem full_step (w : World) (s : Step) (h : FullInv w) : FullInv (step true w 
   | mint i t who n =>
     simp only [step]
     exact ginv_frame w i _ g rfl rfl rfl rfl rfl
+  | approve i t who n =>
+    simp only [step]
+    exact ginv_frame w i _ g rfl rfl rfl rfl rfl
+  | transfer i t src dst n =>
+    simp only [step]
+    split
+    · exact g
+    · split
+      · exact g
+      · rename_i e hd
+        have := debit_some hd
+        subst this
+        exact ginv_frame w i _ g rfl rfl rfl rfl rfl
 
 theorem full_run (steps : List Step) : ∀ w : World, FullInv w → FullInv (run true w steps) := by
   induction steps with
@@ -1687,10 +1947,10 @@ theorem no_double_hold (w : World) (steps : List Step) (h : FullInv w) (S D : Ch
 
 theorem ginv_w0 : GInv w0 := by
   refine ⟨?_, ?_, ?_, ?_, ?_⟩
-  · intro S D q; unfold w0; by_cases hD : D = 0 <;> simp [hD, Chain.empty, Evm.empty]
-  · intro S D q; unfold w0; by_cases hS : S = 0 <;> simp [hS, Chain.empty, Evm.empty]
+  · intro S D q; unfold w0; by_cases hD : D = 0 <;> simp [hD, Chain.empty, Evm.empty, evm0]
+  · intro S D q; unfold w0; by_cases hS : S = 0 <;> simp [hS, Chain.empty, Evm.empty, evm0]
   · intro S r hr; unfold w0 at hr; by_cases hS : S = 0 <;> simp [hS, Chain.empty] at hr
-  · intro S D q _; unfold w0; by_cases hS : S = 0 <;> simp [hS, Chain.empty, Evm.empty]
+  · intro S D q _; unfold w0; by_cases hS : S = 0 <;> simp [hS, Chain.empty, Evm.empty, evm0]
   · intro S D q h0 hq
     unfold w0 at hq
     by_cases hS : S = 0 <;> simp [hS, Chain.empty] at hq <;> omega
@@ -1708,5 +1968,735 @@ example : Refunded (run true w0 f13Steps) 0 1 1 := by
       rw [this]; intro hr; cases hr)
   · exact absurd h.1.2.1 (by decide)
   · exact h.1
+
+/-! ### relay fees: escrow solvency and "paid exactly once, at the acknowledgement" -/
+
+/-- sum of the relay fees (in token `F`) of the packets still committed on a chain -/
+def escrowFee (c : Chain) (F : Token) : Nat := (c.commits.map (fun p => feeAt c.evm p F)).sum
+
+/-- **Fee escrow is solvent**: on every chain, for every token, the packet contract holds at least the relay fees
+of all packets that are not yet acknowledged (the fee of a pending packet is never lost, never paid early). -/
+def FeeSolvent (w : World) : Prop := ∀ S F, escrowFee (w.chains S) F ≤ (w.chains S).evm.bal F acPacket
+
+theorem sum_map_congr {α} (f g : α → Nat) : ∀ l : List α, (∀ x ∈ l, f x = g x) → (l.map f).sum = (l.map g).sum
+  | [], _ => rfl
+  | x :: xs, h => by
+    simp [h x List.mem_cons_self, sum_map_congr f g xs (fun y hy => h y (List.mem_cons_of_mem _ hy))]
+
+theorem sum_map_erase (f : Packet → Nat) (p : Packet) : ∀ l : List Packet, p ∈ l →
+    ((l.erase p).map f).sum + f p = (l.map f).sum
+  | [], h => by cases h
+  | x :: xs, h => by
+    by_cases hx : x = p
+    · subst hx; simp; omega
+    · have hp : p ∈ xs := by
+        cases h with
+        | head => exact absurd rfl hx
+        | tail _ h => exact h
+      have ih := sum_map_erase f p xs hp
+      have : (x :: xs).erase p = x :: xs.erase p := by simp [hx]
+      rw [this]; simp; omega
+
+theorem fs_send (w : World) (X : ChainId) (c' : Chain) (p : Packet) (h : WF w) (fs : FeeSolvent w)
+    (e : SendEff (w.cfg X) X (w.chains X) c' p) : FeeSolvent (w.set X c') := by
+  intro S F
+  by_cases hS : S = X
+  · subst hS
+    rw [set_chains_eq]
+    have old := fs S F
+    have hesc := e.esc F
+    unfold escrowFee at old ⊢
+    rw [e.commits]
+    simp only [List.map_cons, List.sum_cons]
+    have hsame : ((w.chains S).commits.map (fun q => feeAt c'.evm q F)).sum =
+        ((w.chains S).commits.map (fun q => feeAt (w.chains S).evm q F)).sum := by
+      apply sum_map_congr
+      intro q hq
+      obtain ⟨_, _, hlt, _⟩ := h.pkt S q hq
+      unfold feeAt
+      rw [e.feeKey q.dst q.seq (by
+        intro ⟨h1, h2⟩
+        rw [h1, h2, e.seq] at hlt
+        exact Nat.lt_irrefl _ hlt)]
+    rw [hsame]; omega
+  · rw [set_chains_ne _ _ hS]; exact fs S F
+
+theorem fs_recv (w : World) (X : ChainId) (cR : Chain) (p : Packet) (code : Nat) (fs : FeeSolvent w)
+    (e : RecvEff (w.cfg X) (w.chains X) cR p code) : FeeSolvent (w.set X cR) := by
+  intro S F
+  by_cases hS : S = X
+  · subst hS
+    rw [set_chains_eq]
+    have old := fs S F
+    have hesc := e.esc F
+    unfold escrowFee feeAt at old ⊢
+    rw [e.commits, e.feeMap]; omega
+  · rw [set_chains_ne _ _ hS]; exact fs S F
+
+theorem fs_ack (w : World) (X : ChainId) (c' : Chain) (p : Packet) (code : Nat) (fs : FeeSolvent w)
+    (e : AckEff (w.cfg X) (w.chains X) c' p code) : FeeSolvent (w.set X c') := by
+  intro S F
+  by_cases hS : S = X
+  · subst hS
+    rw [set_chains_eq]
+    have old := fs S F
+    have hesc := e.esc F
+    have her := sum_map_erase (fun q => feeAt (w.chains S).evm q F) p _ e.mem
+    unfold escrowFee at old ⊢
+    have hsame : (c'.commits.map (fun q => feeAt c'.evm q F)).sum =
+        (((w.chains S).commits.erase p).map (fun q => feeAt (w.chains S).evm q F)).sum := by
+      rw [e.commits]
+      apply sum_map_congr
+      intro q _
+      unfold feeAt; rw [e.feeMap]
+    rw [hsame]; omega
+  · rw [set_chains_ne _ _ hS]; exact fs S F
+
+theorem fs_frame (w : World) (X : ChainId) (c' : Chain) (fs : FeeSolvent w)
+    (h1 : c'.commits = (w.chains X).commits) (h2 : c'.evm.fee = (w.chains X).evm.fee)
+    (h3 : ∀ F, (w.chains X).evm.bal F acPacket ≤ c'.evm.bal F acPacket) : FeeSolvent (w.set X c') := by
+  intro S F
+  by_cases hS : S = X
+  · subst hS
+    rw [set_chains_eq]
+    have old := fs S F
+    have := h3 F
+    unfold escrowFee feeAt at old ⊢
+    rw [h1, h2]; omega
+  · rw [set_chains_ne _ _ hS]; exact fs S F
+
+theorem fs_step (w : World) (s : Step) (h : Inv w) (fs : FeeSolvent w) : FeeSolvent (step true w s) := by
+  have hpa : ¬ acPacket = acAgent := by decide
+  cases s with
+  | send i sender a =>
+    simp only [step]
+    split
+    · exact fs
+    · rename_i c hs
+      obtain ⟨p, e⟩ := send_eff hs
+      exact fs_send w i c p h.1 fs e
+  | recv src dst seq =>
+    simp only [step]
+    split
+    · exact fs
+    rename_i p hf
+    obtain ⟨hmem, hpd, hps⟩ := findPacket_some hf
+    split
+    · exact fs
+    rename_i c hr
+    obtain ⟨hd, hrc, code, cR, eR, hfin⟩ := recv_eff hr
+    have hsrc : p.src = src := (h.1.pkt src p hmem).1
+    have hmem' : p ∈ (w.chains p.src).commits := by rw [hsrc]; exact hmem
+    have wf1 := wf_recv w dst cR p code h.1 hmem' hd eR
+    have f1 := fs_recv w dst cR p code fs eR
+    rcases hfin with h1 | ⟨p2, e2⟩
+    · subst h1; exact f1
+    · have e2' : SendEff ((w.set dst cR).cfg dst) dst ((w.set dst cR).chains dst) c p2 := by
+        rw [set_cfg, set_chains_eq]; exact e2
+      have f2 := fs_send (w.set dst cR) dst c p2 wf1 f1 e2'
+      rw [set_set] at f2
+      exact f2
+  | ack src dst seq =>
+    simp only [step]
+    split
+    · exact fs
+    rename_i p hf
+    split
+    · exact fs
+    rename_i code hcode
+    split
+    · exact fs
+    rename_i c ha
+    obtain ⟨_, e⟩ := ack_eff ha
+    exact fs_ack w src c p code fs e
+  | mint i t who n =>
+    simp only [step]
+    refine fs_frame w i _ fs rfl rfl ?_
+    intro F
+    simp only [credit, upd2_app]
+    split
+    · rename_i hc; rw [hc.1, hc.2]; omega
+    · exact Nat.le_refl _
+  | approve i t who n =>
+    simp only [step]
+    exact fs_frame w i _ fs rfl rfl (fun F => Nat.le_refl _)
+  | transfer i t src dst n =>
+    simp only [step]
+    split
+    · exact fs
+    · rename_i hsys
+      split
+      · exact fs
+      · rename_i e hd
+        have := debit_some hd
+        subst this
+        refine fs_frame w i _ fs rfl rfl ?_
+        intro F
+        have hsp : ¬ acPacket = src := fun h => hsys (Or.inr h.symm)
+        simp only [credit, upd2_app]
+        split
+        · rename_i hc; obtain ⟨h1, h2⟩ := hc; subst h1; rw [← h2]; simp [hsp]
+        · simp [hsp]
+
+/-- **Fee escrow solvency, every history.** -/
+theorem fee_solvent_run (steps : List Step) : ∀ w : World, Inv w → FeeSolvent w → FeeSolvent (run true w steps) := by
+  induction steps with
+  | nil => intro w _ fs; exact fs
+  | cons s rest ih => intro w h fs; exact ih (step true w s) (inv_step w s h) (fs_step w s h fs)
+
+/-! ### the relay fee is paid exactly once, at the acknowledgement; every accepted receive leaves an acknowledgement -/
+
+structure FInv (w : World) : Prop where
+  f1 : ∀ S p, p ∈ (w.chains S).commits → (w.chains S).evm.feePaid p.dst p.seq = 0
+  f2 : ∀ S D q, (w.chains S).nextSeq D ≤ q → (w.chains S).evm.feePaid D q = 0
+  f3 : ∀ S D q, (w.chains S).evm.feePaid D q ≤ 1
+  f4 : ∀ S D q, 0 < q → q < (w.chains S).nextSeq D → Pending w S D q ∨ (w.chains S).evm.feePaid D q = 1
+  gR : ∀ S D q, (w.chains D).receipts S q = true → (w.chains D).acks S q ≠ none
+
+theorem finv_send (w : World) (X : ChainId) (c' : Chain) (p : Packet) (g : FInv w)
+    (e : SendEff (w.cfg X) X (w.chains X) c' p) : FInv (w.set X c') := by
+  have hfp : ∀ Y, ((w.set X c').chains Y).evm.feePaid = (w.chains Y).evm.feePaid :=
+    fun Y => set_proj w X c' (fun c => c.evm.feePaid) e.fpd Y
+  have hak : ∀ Y, ((w.set X c').chains Y).acks = (w.chains Y).acks :=
+    fun Y => set_proj w X c' (fun c => c.acks) e.acks Y
+  have hrc : ∀ Y, ((w.set X c').chains Y).receipts = (w.chains Y).receipts :=
+    fun Y => set_proj w X c' (fun c => c.receipts) e.receipts Y
+  have mono := nextSeq_mono e.nextSeq e.seq
+  have hpend : ∀ S D q, Pending w S D q → Pending (w.set X c') S D q := by
+    intro S D q ⟨r, hr, h1, h2⟩
+    by_cases hS : S = X
+    · subst hS; refine ⟨r, ?_, h1, h2⟩; rw [set_chains_eq, e.commits]; exact List.mem_cons_of_mem _ hr
+    · refine ⟨r, ?_, h1, h2⟩; rw [set_chains_ne _ _ hS]; exact hr
+  refine ⟨?_, ?_, ?_, ?_, ?_⟩
+  · intro S r hr
+    rw [hfp]
+    by_cases hS : S = X
+    · subst hS
+      rw [set_chains_eq, e.commits] at hr
+      rcases List.mem_cons.mp hr with hr | hr
+      · subst hr; exact g.f2 S r.dst r.seq (by rw [e.seq]; exact Nat.le_refl _)
+      · exact g.f1 S r hr
+    · rw [set_chains_ne _ _ hS] at hr; exact g.f1 S r hr
+  · intro S D q hq
+    rw [hfp]
+    by_cases hS : S = X
+    · subst hS; rw [set_chains_eq] at hq; exact g.f2 S D q (Nat.le_trans (mono D) hq)
+    · rw [set_chains_ne _ _ hS] at hq; exact g.f2 S D q hq
+  · intro S D q; rw [hfp]; exact g.f3 S D q
+  · intro S D q h0 hq
+    rw [hfp]
+    by_cases hS : S = X
+    · subst hS
+      rw [set_chains_eq, e.nextSeq] at hq
+      by_cases hk : D = p.dst ∧ q = p.seq
+      · left; refine ⟨p, ?_, hk.1.symm, hk.2.symm⟩; rw [set_chains_eq, e.commits]; exact List.mem_cons_self
+      · have hq' : q < (w.chains S).nextSeq D := by
+          unfold upd1 at hq
+          split at hq
+          · rename_i hD
+            have : q ≠ p.seq := fun h => hk ⟨hD, h⟩
+            rw [hD, ← e.seq]; omega
+          · exact hq
+        rcases g.f4 S D q h0 hq' with h | h
+        · left; exact hpend _ _ _ h
+        · right; exact h
+    · rw [set_chains_ne _ _ hS] at hq
+      rcases g.f4 S D q h0 hq with h | h
+      · left; exact hpend _ _ _ h
+      · right; exact h
+  · intro S D q hr
+    rw [hak]; rw [hrc] at hr; exact g.gR S D q hr
+
+theorem finv_recv (w : World) (X : ChainId) (cR : Chain) (p : Packet) (code : Nat) (g : FInv w)
+    (e : RecvEff (w.cfg X) (w.chains X) cR p code) : FInv (w.set X cR) := by
+  have hfp : ∀ Y, ((w.set X cR).chains Y).evm.feePaid = (w.chains Y).evm.feePaid :=
+    fun Y => set_proj w X cR (fun c => c.evm.feePaid) e.fpd Y
+  have hcm : ∀ Y, ((w.set X cR).chains Y).commits = (w.chains Y).commits :=
+    fun Y => set_proj w X cR (fun c => c.commits) e.commits Y
+  have hns : ∀ Y, ((w.set X cR).chains Y).nextSeq = (w.chains Y).nextSeq :=
+    fun Y => set_proj w X cR (fun c => c.nextSeq) e.nextSeq Y
+  refine ⟨?_, ?_, ?_, ?_, ?_⟩
+  · intro S r hr; rw [hfp]; rw [hcm] at hr; exact g.f1 S r hr
+  · intro S D q hq; rw [hfp]; rw [hns] at hq; exact g.f2 S D q hq
+  · intro S D q; rw [hfp]; exact g.f3 S D q
+  · intro S D q h0 hq
+    rw [hfp]; rw [hns] at hq
+    rcases g.f4 S D q h0 hq with h | h
+    · left; obtain ⟨r, hr, a, b⟩ := h; exact ⟨r, by rw [hcm]; exact hr, a, b⟩
+    · right; exact h
+  · intro S D q hr
+    by_cases hD : D = X
+    · subst hD
+      rw [set_chains_eq] at hr ⊢
+      rw [e.acks, upd2_app]
+      rw [e.receipts, upd2_app] at hr
+      split
+      · exact Option.some_ne_none _
+      · rename_i hk
+        simp only [hk, ↓reduceIte] at hr
+        exact g.gR S D q hr
+    · rw [set_chains_ne _ _ hD] at hr ⊢; exact g.gR S D q hr
+
+theorem finv_ack (w : World) (X : ChainId) (c' : Chain) (p : Packet) (code : Nat) (h : WF w) (g : FInv w)
+    (e : AckEff (w.cfg X) (w.chains X) c' p code) : FInv (w.set X c') := by
+  have hak : ∀ Y, ((w.set X c').chains Y).acks = (w.chains Y).acks :=
+    fun Y => set_proj w X c' (fun c => c.acks) e.acks Y
+  have hrc : ∀ Y, ((w.set X c').chains Y).receipts = (w.chains Y).receipts :=
+    fun Y => set_proj w X c' (fun c => c.receipts) e.receipts Y
+  have hns : ∀ Y, ((w.set X c').chains Y).nextSeq = (w.chains Y).nextSeq :=
+    fun Y => set_proj w X c' (fun c => c.nextSeq) e.nextSeq Y
+  obtain ⟨_, _, hseq, _⟩ := h.pkt X p e.mem
+  have hold0 := g.f1 X p e.mem
+  have hfpX : ∀ D q, c'.evm.feePaid D q =
+      if D = p.dst ∧ q = p.seq then 1 else (w.chains X).evm.feePaid D q := by
+    intro D q
+    rw [e.fpd, upd2_app]
+    by_cases hk : D = p.dst ∧ q = p.seq
+    · obtain ⟨h1, h2⟩ := hk; subst h1; subst h2; simp [hold0]
+    · simp [hk]
+  refine ⟨?_, ?_, ?_, ?_, ?_⟩
+  · intro S r hr
+    by_cases hS : S = X
+    · subst hS
+      rw [set_chains_eq] at hr ⊢
+      rw [e.commits] at hr
+      have hk := erase_key p r _ (h.keys S) e.mem hr
+      rw [hfpX]
+      have : ¬ (r.dst = p.dst ∧ r.seq = p.seq) := by
+        intro ⟨h1, h2⟩
+        rcases hk with hk | hk
+        · exact hk h1
+        · exact hk h2
+      simp only [this, ↓reduceIte]
+      exact g.f1 S r (List.mem_of_mem_erase hr)
+    · rw [set_chains_ne _ _ hS] at hr ⊢; exact g.f1 S r hr
+  · intro S D q hq
+    rw [hns] at hq
+    by_cases hS : S = X
+    · subst hS
+      rw [set_chains_eq, hfpX]
+      have : ¬ (D = p.dst ∧ q = p.seq) := by
+        intro ⟨h1, h2⟩
+        subst h1; subst h2; omega
+      simp only [this, ↓reduceIte]
+      exact g.f2 S D q hq
+    · rw [set_chains_ne _ _ hS]; exact g.f2 S D q hq
+  · intro S D q
+    by_cases hS : S = X
+    · subst hS
+      rw [set_chains_eq, hfpX]
+      split
+      · exact Nat.le_refl 1
+      · exact g.f3 S D q
+    · rw [set_chains_ne _ _ hS]; exact g.f3 S D q
+  · intro S D q h0 hq
+    rw [hns] at hq
+    by_cases hS : S = X
+    · subst hS
+      rw [set_chains_eq, hfpX]
+      by_cases hk : D = p.dst ∧ q = p.seq
+      · right; simp [hk]
+      · simp only [hk, ↓reduceIte]
+        rcases g.f4 S D q h0 hq with h1 | h1
+        · left
+          obtain ⟨r, hr, hr1, hr2⟩ := h1
+          refine ⟨r, ?_, hr1, hr2⟩
+          rw [set_chains_eq, e.commits]
+          have : r ≠ p := by
+            intro hrp; subst hrp; exact hk ⟨hr1.symm, hr2.symm⟩
+          exact (List.mem_erase_of_ne this).mpr hr
+        · right; exact h1
+    · rw [set_chains_ne _ _ hS]
+      rcases g.f4 S D q h0 hq with h1 | h1
+      · left
+        obtain ⟨r, hr, hr1, hr2⟩ := h1
+        exact ⟨r, by rw [set_chains_ne _ _ hS]; exact hr, hr1, hr2⟩
+      · right; exact h1
+  · intro S D q hr
+    rw [hak]; rw [hrc] at hr; exact g.gR S D q hr
+
+theorem finv_frame (w : World) (X : ChainId) (c' : Chain) (g : FInv w)
+    (h1 : c'.commits = (w.chains X).commits) (h2 : c'.nextSeq = (w.chains X).nextSeq)
+    (h3 : c'.receipts = (w.chains X).receipts) (h4 : c'.acks = (w.chains X).acks)
+    (h5 : c'.evm.feePaid = (w.chains X).evm.feePaid) : FInv (w.set X c') := by
+  have hfp : ∀ Y, ((w.set X c').chains Y).evm.feePaid = (w.chains Y).evm.feePaid :=
+    fun Y => set_proj w X c' (fun c => c.evm.feePaid) h5 Y
+  have hak : ∀ Y, ((w.set X c').chains Y).acks = (w.chains Y).acks :=
+    fun Y => set_proj w X c' (fun c => c.acks) h4 Y
+  have hrc : ∀ Y, ((w.set X c').chains Y).receipts = (w.chains Y).receipts :=
+    fun Y => set_proj w X c' (fun c => c.receipts) h3 Y
+  have hns : ∀ Y, ((w.set X c').chains Y).nextSeq = (w.chains Y).nextSeq :=
+    fun Y => set_proj w X c' (fun c => c.nextSeq) h2 Y
+  have hcm : ∀ Y, ((w.set X c').chains Y).commits = (w.chains Y).commits :=
+    fun Y => set_proj w X c' (fun c => c.commits) h1 Y
+  refine ⟨?_, ?_, ?_, ?_, ?_⟩
+  · intro S r hr; rw [hfp]; rw [hcm] at hr; exact g.f1 S r hr
+  · intro S D q hq; rw [hfp]; rw [hns] at hq; exact g.f2 S D q hq
+  · intro S D q; rw [hfp]; exact g.f3 S D q
+  · intro S D q h0 hq
+    rw [hfp]; rw [hns] at hq
+    rcases g.f4 S D q h0 hq with h | h
+    · left; obtain ⟨r, hr, a, b⟩ := h; exact ⟨r, by rw [hcm]; exact hr, a, b⟩
+    · right; exact h
+  · intro S D q hr; rw [hak]; rw [hrc] at hr; exact g.gR S D q hr
+
+theorem finv_step (w : World) (s : Step) (h : Inv w) (g : FInv w) : FInv (step true w s) := by
+  cases s with
+  | send i sender a =>
+    simp only [step]
+    split
+    · exact g
+    · rename_i c hs
+      obtain ⟨p, e⟩ := send_eff hs
+      exact finv_send w i c p g e
+  | recv src dst seq =>
+    simp only [step]
+    split
+    · exact g
+    rename_i p hf
+    split
+    · exact g
+    rename_i c hr
+    obtain ⟨hd, hrc, code, cR, eR, hfin⟩ := recv_eff hr
+    have g1 := finv_recv w dst cR p code g eR
+    rcases hfin with h1 | ⟨p2, e2⟩
+    · subst h1; exact g1
+    · have e2' : SendEff ((w.set dst cR).cfg dst) dst ((w.set dst cR).chains dst) c p2 := by
+        rw [set_cfg, set_chains_eq]; exact e2
+      have g2 := finv_send (w.set dst cR) dst c p2 g1 e2'
+      rw [set_set] at g2
+      exact g2
+  | ack src dst seq =>
+    simp only [step]
+    split
+    · exact g
+    rename_i p hf
+    split
+    · exact g
+    rename_i code hcode
+    split
+    · exact g
+    rename_i c ha
+    obtain ⟨_, e⟩ := ack_eff ha
+    exact finv_ack w src c p code h.1 g e
+  | mint i t who n =>
+    simp only [step]
+    exact finv_frame w i _ g rfl rfl rfl rfl rfl
+  | approve i t who n =>
+    simp only [step]
+    exact finv_frame w i _ g rfl rfl rfl rfl rfl
+  | transfer i t src dst n =>
+    simp only [step]
+    split
+    · exact g
+    · split
+      · exact g
+      · rename_i e hd
+        have := debit_some hd
+        subst this
+        exact finv_frame w i _ g rfl rfl rfl rfl rfl
+
+theorem finv_run (steps : List Step) : ∀ w : World, Inv w → FInv w → FInv (run true w steps) := by
+  induction steps with
+  | nil => intro w _ g; exact g
+  | cons s rest ih => intro w h g; exact ih (step true w s) (inv_step w s h) (finv_step w s h g)
+
+/-- **The relay fee is paid exactly once, at the acknowledgement.** After any history, for every packet ever sent:
+either it is still pending and its fee has not been paid, or it is acknowledged and its fee has been paid exactly
+once; nothing is ever paid for a sequence that was not sent. -/
+theorem fee_paid_exactly_once (w : World) (steps : List Step) (h : Inv w) (g : FInv w) (S D : ChainId) (q : Nat) :
+    let w' := run true w steps
+    ((w'.chains S).nextSeq D ≤ q → (w'.chains S).evm.feePaid D q = 0) ∧
+    (Pending w' S D q → (w'.chains S).evm.feePaid D q = 0) ∧
+    (0 < q → q < (w'.chains S).nextSeq D → ¬ Pending w' S D q → (w'.chains S).evm.feePaid D q = 1) ∧
+    (w'.chains S).evm.feePaid D q ≤ 1 := by
+  have g' := finv_run steps w h g
+  refine ⟨g'.f2 S D q, ?_, ?_, g'.f3 S D q⟩
+  · intro ⟨r, hr, h1, h2⟩
+    have := g'.f1 S r hr
+    rw [h1, h2] at this; exact this
+  · intro h0 hq hp
+    rcases g'.f4 S D q h0 hq with h1 | h1
+    · exact absurd h1 hp
+    · exact h1
+
+/-- **Every accepted receive has an acknowledgement, and its code tells what happened**: after any history, if the
+destination holds a receipt for (S, q) then it holds an acknowledgement for it, and the packet's effects have been
+applied exactly once if the code is 0 and not at all otherwise. -/
+theorem received_has_ack_and_code_decides (w : World) (steps : List Step) (h : FullInv w) (g : FInv w)
+    (S D : ChainId) (q : Nat) (hr : ((run true w steps).chains D).receipts S q = true) :
+    ∃ code, ((run true w steps).chains D).acks S q = some code ∧
+      (code = 0 → ((run true w steps).chains D).evm.credited S q = 1) ∧
+      (code ≠ 0 → ((run true w steps).chains D).evm.credited S q = 0) := by
+  have g' := finv_run steps w h.1 g
+  have gg := (full_run steps w h).2
+  have hne := g'.gR S D q hr
+  cases hack : ((run true w steps).chains D).acks S q with
+  | none => exact absurd hack hne
+  | some code =>
+    refine ⟨code, rfl, ?_, ?_⟩
+    · intro hc; rw [gg.g1 S D q, hack, hc]; rfl
+    · intro hc
+      rw [gg.g1 S D q, hack]
+      have : ¬ (some code = some 0) := fun h => hc (Option.some.inj h)
+      simp [this]
+
+/-! ### the acknowledgement code, outcome by outcome (repaired `msg_server.RecvPacket`)
+
+`ctxOf c p` is `ctx` after `PacketKeeper.RecvPacket` (receipt written); the callback runs on a branch of it. -/
+
+def ctxOf (c : Chain) (p : Packet) : Chain := { c with receipts := upd2 c.receipts p.src p.seq true }
+def withAck (x : Chain) (p : Packet) (code : Nat) : Chain := { x with acks := upd2 x.acks p.src p.seq (some code) }
+
+/-- the receive is accepted at all: packet for this chain, not yet received, client of the source exists -/
+def RecvAccepts (cfg : Cfg) (me : ChainId) (c : Chain) (p : Packet) : Prop :=
+  p.dst = me ∧ c.receipts p.src p.seq = false ∧ cfg.clients p.src = true
+
+theorem recvHandler_eq (cfg : Cfg) (me : ChainId) (c : Chain) (p : Packet) (ha : RecvAccepts cfg me c p) :
+    recvHandler true cfg me c p =
+      match onRecv cfg me (ctxOf c p) p with
+      | .ok cctx' => some (withAck cctx' p 0)
+      | .evmRevert => some (withAck (ctxOf c p) p 1)
+      | .errorResult code _ => some (withAck (ctxOf c p) p code)
+      | .hookFail _ => some (withAck (ctxOf c p) p 1) := by
+  obtain ⟨h1, h2, h3⟩ := ha
+  unfold recvHandler ctxOf withAck
+  simp [h1, h2, h3]
+  generalize onRecv cfg me _ p = r
+  cases r <;> rfl
+
+/-- outcome 1 — the callback returned result code 0: success acknowledgement (code 0) and the callback's state,
+written back from the cache context, is the chain's state. -/
+theorem recv_outcome_ok (cfg : Cfg) (me : ChainId) (c c2 : Chain) (p : Packet) (ha : RecvAccepts cfg me c p)
+    (hcb : onRecv cfg me (ctxOf c p) p = .ok c2) : recvHandler true cfg me c p = some (withAck c2 p 0) := by
+  rw [recvHandler_eq cfg me c p ha, hcb]
+
+/-- outcome 2 — the EVM call reverted: error acknowledgement code 1, nothing but receipt and acknowledgement written. -/
+theorem recv_outcome_evmRevert (cfg : Cfg) (me : ChainId) (c : Chain) (p : Packet) (ha : RecvAccepts cfg me c p)
+    (hcb : onRecv cfg me (ctxOf c p) p = .evmRevert) : recvHandler true cfg me c p = some (withAck (ctxOf c p) p 1) := by
+  rw [recvHandler_eq cfg me c p ha, hcb]
+
+/-- outcome 3 — the packet contract RETURNED a non-zero result code (with whatever state): the acknowledgement
+carries exactly that code, the code is not 0, and the returned state is discarded. -/
+theorem recv_outcome_errorResult (cfg : Cfg) (me : ChainId) (c c2 : Chain) (p : Packet) (code : Nat)
+    (ha : RecvAccepts cfg me c p) (hcb : onRecv cfg me (ctxOf c p) p = .errorResult code c2) :
+    recvHandler true cfg me c p = some (withAck (ctxOf c p) p code) ∧ code ≠ 0 := by
+  refine ⟨?_, onRecv_err hcb⟩
+  rw [recvHandler_eq cfg me c p ha, hcb]
+
+/-- outcome 4 — a post-transaction hook failed after the EVM had committed into the cache context: error
+acknowledgement code 1, the committed state is discarded with the cache context. -/
+theorem recv_outcome_hookFail (cfg : Cfg) (me : ChainId) (c c2 : Chain) (p : Packet) (ha : RecvAccepts cfg me c p)
+    (hcb : onRecv cfg me (ctxOf c p) p = .hookFail c2) : recvHandler true cfg me c p = some (withAck (ctxOf c p) p 1) := by
+  rw [recvHandler_eq cfg me c p ha, hcb]
+
+/-- a result code 0 is produced only by a callback whose transfer part was applied (exactly one more `credited`) -/
+theorem onRecv_ok_credited {cfg : Cfg} {me : ChainId} {c c2 : Chain} {p : Packet} (h : onRecv cfg me c p = .ok c2) :
+    c2.evm.credited = upd2 c.evm.credited p.src p.seq (c.evm.credited p.src p.seq + 1) ∧ c2.acks = c.acks ∧
+    c2.receipts = c.receipts := by
+  obtain ⟨e, tok, k, hrt, hcase⟩ := onRecv_ok h
+  obtain ⟨_, _, _, hcr, _⟩ := recvTransfer_eff hrt
+  rcases hcase with h1 | ⟨a, e3, p2, sq, hsq, he, hk⟩
+  · subst h1; exact ⟨hcr, rfl, rfl⟩
+  · have key := sendKeeper_eff (c0 := { c with evm := e }) hsq he hk
+    exact ⟨by rw [key.cred]; exact hcr, key.acks, key.receipts⟩
+
+/-- **The acknowledgement code decides, whatever the callback did.** Every accepted receive writes an
+acknowledgement; code 0 ⇔ the packet's effects were applied exactly once (one more `credited`);
+code ≠ 0 ⇔ nothing of the callback is left (EVM state, commitments, sequences as before). -/
+theorem recv_code_decides (cfg : Cfg) (me : ChainId) (c c' : Chain) (p : Packet)
+    (h : recvHandler true cfg me c p = some c') :
+    ∃ code, c'.acks p.src p.seq = some code ∧ c'.receipts p.src p.seq = true ∧
+      (code = 0 → c'.evm.credited p.src p.seq = c.evm.credited p.src p.seq + 1) ∧
+      (code ≠ 0 → c'.evm = c.evm ∧ c'.commits = c.commits ∧ c'.nextSeq = c.nextSeq) ∧
+      (c'.evm.credited p.src p.seq = c.evm.credited p.src p.seq + 1 → code = 0) := by
+  have ha : RecvAccepts cfg me c p := by
+    unfold recvHandler at h
+    split at h
+    · cases h
+    rename_i h1
+    split at h
+    · cases h
+    rename_i h2
+    split at h
+    · cases h
+    rename_i h3
+    refine ⟨Decidable.of_not_not h1, ?_, ?_⟩
+    · cases hb : c.receipts p.src p.seq
+      · rfl
+      · exact absurd hb h2
+    · cases hb : cfg.clients p.src
+      · simp [hb] at h3
+      · rfl
+  rw [recvHandler_eq cfg me c p ha] at h
+  split at h
+  · rename_i c2 hcb
+    have := (Option.some.inj h).symm; subst this
+    obtain ⟨hcr, hak, hrc⟩ := onRecv_ok_credited hcb
+    refine ⟨0, by simp [withAck, upd2], ?_, ?_, fun h => absurd rfl h, fun _ => rfl⟩
+    · show c2.receipts p.src p.seq = true
+      rw [hrc]; simp [ctxOf, upd2]
+    · intro _
+      show c2.evm.credited p.src p.seq = _
+      rw [hcr]; simp [upd2, ctxOf]
+  · have := (Option.some.inj h).symm; subst this
+    refine ⟨1, by simp [withAck, upd2], by simp [withAck, ctxOf, upd2], fun h => by omega, fun _ => ⟨rfl, rfl, rfl⟩, ?_⟩
+    intro h; simp [withAck, ctxOf] at h
+  · rename_i code c2 hcb
+    have := (Option.some.inj h).symm; subst this
+    have hne := onRecv_err hcb
+    refine ⟨code, by simp [withAck, upd2], by simp [withAck, ctxOf, upd2], fun h => absurd h hne, fun _ => ⟨rfl, rfl, rfl⟩, ?_⟩
+    intro h; simp [withAck, ctxOf] at h
+  · have := (Option.some.inj h).symm; subst this
+    refine ⟨1, by simp [withAck, upd2], by simp [withAck, ctxOf, upd2], fun h => by omega, fun _ => ⟨rfl, rfl, rfl⟩, ?_⟩
+    intro h; simp [withAck, ctxOf] at h
+
+/-! ### the source's decision uses exactly the destination's code -/
+
+theorem refund_ackStatus {cfg : Cfg} {e e' : Evm} {p : Packet} (h : refund cfg e p = some e') : e'.ackStatus = e.ackStatus := by
+  unfold refund at h
+  split at h
+  · cases h
+  split at h
+  · have := (Option.some.inj h).symm; subst this; rfl
+  · split at h
+    · cases h
+    split at h
+    · cases h
+    rename_i e2 hd
+    have := debit_some hd; subst this
+    have := (Option.some.inj h).symm; subst this; rfl
+
+theorem agentCallback_ackStatus {e e' : Evm} {p : Packet} (h : agentCallback e p = some e') : e'.ackStatus = e.ackStatus := by
+  unfold agentCallback at h
+  split at h
+  · cases h
+  split at h
+  · cases h
+  rename_i e2 hd
+  have := debit_some hd; subst this
+  have := (Option.some.inj h).symm; subst this; rfl
+
+/-- **The source settles by the code it is given**: code 0 ⇒ status 1, no refund, escrow and bindings untouched;
+code ≠ 0 ⇒ status 2 and the error settlement (refund of the transfer, if there is one) executed exactly once more;
+in both cases the relay fee is paid once and the commitment is cleared. -/
+theorem ack_settles_by_code (cfg : Cfg) (me : ChainId) (c c' : Chain) (p : Packet) (code : Nat)
+    (h : ackHandler cfg me c p code = some c') :
+    c'.commits = c.commits.erase p ∧
+    c'.evm.feePaid p.dst p.seq = c.evm.feePaid p.dst p.seq + 1 ∧
+    c'.evm.ackStatus p.dst p.seq = (if code = 0 then 1 else 2) ∧
+    (code = 0 → c'.evm.refunded = c.evm.refunded ∧ c'.evm.out = c.evm.out ∧ c'.evm.bindAmt = c.evm.bindAmt) ∧
+    (code ≠ 0 → c'.evm.refunded p.dst p.seq = c.evm.refunded p.dst p.seq + 1 ∧
+      (∀ T, c'.evm.out T p.dst + fwdAmt p T = c.evm.out T p.dst) ∧
+      (∀ V, c'.evm.bindAmt V p.dst = c.evm.bindAmt V p.dst + 10 ^ cfg.scale V p.dst * backAmt p V)) := by
+  obtain ⟨_, e⟩ := ack_eff h
+  refine ⟨e.commits, ?_, ?_, ?_, ?_⟩
+  · rw [e.fpd]; simp [upd2]
+  · -- the status written by setAckStatus survives the rest of the transaction
+    unfold ackHandler at h
+    split at h
+    · cases h
+    split at h
+    · cases h
+    split at h
+    · cases h
+    simp only at h
+    split at h
+    · cases h
+    rename_i e1 hdeb
+    have h1 := debit_some hdeb
+    subst h1
+    split at h
+    · have := (Option.some.inj h).symm; subst this
+      simp [credit, upd2]
+    split at h
+    · cases h
+    rename_i e2 hr
+    split at h
+    · cases h
+    rename_i e3 hr2
+    have := (Option.some.inj h).symm; subst this
+    have h32 : e3.ackStatus = e2.ackStatus := by
+      split at hr2
+      · exact agentCallback_ackStatus hr2
+      · have := (Option.some.inj hr2).symm; subst this; rfl
+    show e3.ackStatus p.dst p.seq = _
+    rw [h32]
+    by_cases hc0 : code = 0
+    · simp only [hc0, ↓reduceIte] at hr
+      have := (Option.some.inj hr).symm; subst this
+      simp [credit, upd2, hc0]
+    · simp only [hc0, ↓reduceIte] at hr
+      rw [refund_ackStatus hr]
+      simp [credit, upd2, hc0]
+  · intro hc0
+    refine ⟨by rw [e.refd]; simp [hc0], ?_, ?_⟩
+    · funext T D; have := e.out T D; simp [hc0] at this; exact this
+    · funext V D; have := e.bind V D; simp [hc0] at this; exact this
+  · intro hc0
+    refine ⟨by rw [e.refd]; simp [hc0, upd2], ?_, ?_⟩
+    · intro T; have := e.out T p.dst; simpa [hc0] using this
+    · intro V; have := e.bind V p.dst; simpa [hc0] using this
+
+/-- the relayer step hands the source exactly the code the destination stored (ideal light client) -/
+theorem ack_step_uses_destination_code (w : World) (s d : ChainId) (q : Nat) :
+    step true w (.ack s d q) = w ∨
+    ∃ p code c', findPacket (w.chains s).commits d q = some p ∧ (w.chains d).acks s q = some code ∧
+      ackHandler (w.cfg s) s (w.chains s) p code = some c' ∧ step true w (.ack s d q) = w.set s c' := by
+  simp only [step]
+  split
+  · exact Or.inl rfl
+  rename_i p hf
+  split
+  · exact Or.inl rfl
+  rename_i code hcode
+  split
+  · exact Or.inl rfl
+  rename_i c' ha
+  exact Or.inr ⟨p, code, c', hf, hcode, ha, rfl⟩
+
+/-- with the repair of `msg_server.Acknowledgement`, the error acknowledgement of a packet WITHOUT transfer data is
+always processed once the fee is in escrow (before it, `OnAcknowledgePacket` reverted and the packet could never
+be acknowledged) -/
+theorem ack_call_only_error_accepted (cfg : Cfg) (me : ChainId) (c : Chain) (p : Packet) (code : Nat)
+    (hs : p.src = me) (hm : p ∈ c.commits) (hc : cfg.clients p.dst = true) (hcode : code ≠ 0) (ht : p.transfer = none)
+    (hfee : (c.evm.fee p.dst p.seq).2 ≤ c.evm.bal (c.evm.fee p.dst p.seq).1 acPacket) :
+    (ackHandler cfg me c p code).isSome := by
+  unfold ackHandler debit
+  have : ¬ c.evm.bal (c.evm.fee p.dst p.seq).1 acPacket < (c.evm.fee p.dst p.seq).2 := by omega
+  simp [hs, hm, hc, hcode, ht, this]
+
+
+/-! ### non-vacuity of the fee / completeness theorems -/
+
+theorem finv_w0 : FInv w0 := by
+  refine ⟨?_, ?_, ?_, ?_, ?_⟩
+  · intro S r hr; unfold w0 at hr; by_cases hS : S = 0 <;> simp [hS, Chain.empty] at hr
+  · intro S D q _; unfold w0; by_cases hS : S = 0 <;> simp [hS, Chain.empty, Evm.empty, evm0]
+  · intro S D q; unfold w0; by_cases hS : S = 0 <;> simp [hS, Chain.empty, Evm.empty, evm0]
+  · intro S D q h0 hq
+    unfold w0 at hq
+    by_cases hS : S = 0 <;> simp [hS, Chain.empty] at hq <;> omega
+  · intro S D q hr; unfold w0 at hr; by_cases hD : D = 0 <;> simp [hD, Chain.empty] at hr
+
+theorem feeSolvent_w0 : FeeSolvent w0 := by
+  intro S F
+  unfold escrowFee w0
+  by_cases hS : S = 0 <;> simp [hS, Chain.empty]
+
+/-- a call-only packet whose call data fails: error acknowledgement, acknowledged on the source, fee paid once -/
+def callOnlySteps : List Step :=
+  [.send 0 0 { dst := 1, token := 1, amount := 0, receiver := 0, call := .plain .fail, feeToken := 1, feeAmount := 9, callback := false },
+   .recv 0 1 1, .ack 0 1 1]
+
+example : ((run true w0 callOnlySteps).chains 0).commits = [] ∧
+    ((run true w0 callOnlySteps).chains 0).evm.feePaid 1 1 = 1 ∧
+    ((run true w0 callOnlySteps).chains 0).evm.bal 1 acRelayer = 9 ∧
+    ((run true w0 callOnlySteps).chains 0).evm.bal 1 acPacket = 0 ∧
+    ((run true w0 callOnlySteps).chains 0).evm.ackStatus 1 1 = 2 ∧
+    ((run true w0 callOnlySteps).chains 1).acks 0 1 = some 3 := by decide
+
+example : FeeSolvent (run true w0 (f13Steps ++ callOnlySteps)) :=
+  fee_solvent_run _ w0 inv_w0 feeSolvent_w0
 
 end TM.World
